@@ -32,7 +32,8 @@ META = dict(
          "concurrent messages (outcome return/raise/BaseException/NoResultError/timeout/scripted dependency failure, "
          "staggered awaits) x propagate x ack type x how the Receiver comes to exist (built directly / worker command line / "
          "run_receiver_task / an InMemoryBroker fresh, started or restarted after shutdown, deliveries sent through its "
-         "kick() or the task's kicker); non-trivial iff some execution opened >= 2 yielding dependencies, or a "
+         "kick() or the task's kicker / the run_receiver_task coroutine running for the whole case over a scripted "
+         "listen() that fails 0-2 times, deliveries executed by the first, second or third Receiver it builds); non-trivial iff some execution opened >= 2 yielding dependencies, or a "
          "dependency failed while opening, or the body timed out; distinct by case content",
     trusted_base=["model: coq/theories/Deps.v (hand-written from taskiq/receiver/receiver.py run_task/callback and "
                   "taskiq_dependencies/ctx.py close/resolver)",
@@ -78,7 +79,7 @@ def explore(ctx, rep, cases, label):
         rep.count("concurrent:%d" % len(ex))
         rep.count("propagate:%s" % c.get("propagate", True))
         rep.count("ack:%s" % c.get("ack", "when_saved"))
-        for key in L.path_profile(c):
+        for key in L.path_profile(c) + L.live_profile(c, o, ex):
             rep.count(key)
         for key in L.sharing_profile(c, ex):
             rep.count(key)
@@ -162,6 +163,8 @@ def replay(ctx, path):
     ex, errs = L.derive(c, obs)
     rc = 0
     lits = []
+    if obs.get("live"):
+        print("run_receiver_task ran for real:", json.dumps(obs["live"]))
     for d in ex:
         print("execution %d: opens %s closes %s tree %s" % (
             d.i, [(x, d.inst_node[x]) for x in d.opens], [(x[1], d.inst_node[x[1]], x[2]) for x in d.closes],
